@@ -1881,6 +1881,13 @@ def canon(e, keep_casts=True, _d=0, labels=None):
                     inner = mk_try(('call', c[1], (it[2][0],), c[3] if len(c) > 3 else None))
                     r = subst(_CUR_PROG[0].bodies[clo[2]].ret_expr(), {1: clo, 2: inner})
                     return canon(r, keep_casts, d + 1)
+            # an element of I.filter_map(f) is the Some payload of f applied to an element of I
+            if it[0] == 'call' and method_name(it[1]) == 'filter_map' and 'Iterator' in it[1] and len(it[2]) == 2 and _CUR_PROG[0] is not None and d < 40:
+                clo = peel(it[2][1])
+                if clo[0] == 'aggr' and clo[1] == 'closure' and clo[2] in _CUR_PROG[0].bodies:
+                    inner = mk_try(('call', c[1], (it[2][0],), c[3] if len(c) > 3 else None))
+                    r = mk_try(subst(_CUR_PROG[0].bodies[clo[2]].ret_expr(), {1: clo, 2: inner}))
+                    return canon(r, keep_casts, d + 1)
             return 'each(%s)' % canon(c[2][0], keep_casts, d)
         return canon(e[1], keep_casts, d) + '?'
     if k == 'field':
